@@ -164,14 +164,8 @@ func newC07ctx(p *kit.Program, r *kit.Report) *c07ctx {
 	cx.framePay = p.Field("internal/protocol", "Frame", "Payload")
 	cx.frameFlags = p.Field("internal/protocol", "Frame", "Flags")
 	r.Require(cx.frameType != nil && cx.framePay != nil && cx.frameFlags != nil, "anchor-unresolved: fields Type/Flags/Payload of protocol.Frame")
-	for _, m := range p.Methods("internal/crypto", "SessionKey") {
-		for _, c := range kit.Calls(m) {
-			cal := kit.CalleeOf(c)
-			if cal.Iface && cal.Pkg == "crypto/cipher" && cal.Recv == "AEAD" && cal.Name == "Seal" {
-				cx.encrypt = m
-			}
-		}
-	}
+	// the exported SessionKey method that (transitively, inside internal/crypto) reaches AEAD.Seal
+	cx.encrypt = sessionSealEntry(p)
 	r.Require(cx.encrypt != nil, "anchor-unresolved: SessionKey method calling cipher.AEAD.Seal")
 	if len(r.Floors) > 0 {
 		return nil
